@@ -610,6 +610,32 @@ func (i *interpreter) onStore(fr *frame, instr ssa.Instruction, p *value) {
 	}
 }
 
+// atomicEvent: an atomic operation on a tracked cell is ordered with every other
+// atomic operation on it; it is modelled as a tiny critical section of a mutex
+// private to the cell, so two atomics never count as a race while an atomic
+// and a plain access still do.
+func (i *interpreter) atomicEvent(fr *frame, p *value, write bool) {
+	l, ok := i.cellLoc[p]
+	if !ok || l.name == "obj" {
+		return
+	}
+	if i.atomicMu == nil {
+		i.atomicMu = map[*value]*value{}
+	}
+	m, ok := i.atomicMu[p]
+	if !ok {
+		m = new(value)
+		i.atomicMu[p] = m
+	}
+	i.mutexLock(fr, m)
+	kind := "read"
+	if write {
+		kind = "write"
+	}
+	i.logEvent(fr.th, kind, l.id, 0, l.name, fr)
+	i.mutexUnlock(fr, m)
+}
+
 type poolState struct{ items []value }
 
 func (i *interpreter) syncPool(p *value) *poolState {
